@@ -26,7 +26,8 @@ def run(ctx: Ctx) -> Result:
         rk, fk = bytes(SigningKey(rs).verify_key), bytes(SigningKey(fs).verify_key)
         pre = V.rbytes(rng, rng.choice([1, 2, 16, 32, 33, 64]))
         hs = rng.choice([20, 20, 16, 32, 1, 4, 8, 15, 17, 41, 64])
-        timeout = rng.choice([0, 1, 30, 60, 61, 3600])
+        far = [2**31 - vmrun.NOW - 1, 2**31 - vmrun.NOW, 2**31 - vmrun.NOW + 1, 2**32 - vmrun.NOW - 1, 2**32 - vmrun.NOW, 2**32 - vmrun.NOW + 7]      # deadlines around 2^31 and 2^32
+        timeout = far[(it // 4) % len(far)] if it % 4 == 3 else rng.choice([0, 1, 30, 60, 61, 3600])
         flags = rng.choice(['00', '00', '01', '03', '80', '40', '%02x' % (1 << rng.randrange(8)), '%02x' % rng.randrange(256)])
         sf = {'sigfield1': V.rbytes(rng, 6), 'sigfield2': V.rbytes(rng, 9)}
         tw = V.rbytes(rng, 32)
@@ -88,6 +89,16 @@ def run(ctx: Ctx) -> Result:
                 if wk.startswith('ptlc'): chk('refund attempt by another key', stranger['ptlc_refund'], False)
                 if lk == 'ptlc_tweak': chk('receiver signature without the tweak scalar', claim['ptlc'], False)
                 if lk == 'ptlc': chk('tweaked signature against the untweaked lock', claim['ptlc_tweak'], False)
+                # a sigfield the flags exclude is not signed: the verifier may see another value there (or none) without effect
+                masked = [k for k in sf if (fl >> (int(k[8:]) - 1)) & 1]
+                if masked and t == deadline + 1:
+                    k_ = masked[0]
+                    for cache2 in ({**cache, k_: sf[k_] + b'!'}, {k2: v2 for k2, v2 in cache.items() if k2 != k_}):
+                        def chk2(what, w, want):
+                            ok, v = B.auth([w.bytes, l.bytes], cache2, now=now)
+                            if ok != want: B.viol(what + f' vs {lk} lock, excluded {k_} changed / absent at validation', {**ctx_inp, 'cache': vmrun.cache_str(cache2, False), 'scripts': [w.bytes.hex(), l.bytes.hex()]}, want, v)
+                        chk2('claim witness', claim[wk], True)
+                        chk2('refund witness', refund['ptlc_refund'] if wk.startswith('ptlc') else refund[wk], refund_ok)
             # cross-pairings at a neutral time
             cache = {**sf, 'timestamp': B.now}
             for wk2, w in stranger.items():          # "any other key is rejected": every witness kind made by a stranger, against every lock kind
